@@ -332,9 +332,11 @@ Section Step.
     - intros p. apply npos_bounds. exact Hs.
   Qed.
 
-  Theorem tl_step_law l o : law_step vld l o (tl_step vld l o) = [].
+  Theorem tl_step_law l o : xkey o = false -> law_step vld l o (tl_step vld l o) = [].
   Proof.
-    destruct o as [i v|sl vs|i|sl|v|vs|vs|n|p q|i v|oi|v| |m r| ]; unfold tl_step.
+    intros XK.
+    destruct o as [i v|sl vs|i|sl|v|vs|vs|n|p q|i v|oi|v| |m r| |xi xv|xi|xn]; try discriminate XK; clear XK;
+      unfold tl_step.
     - (* SetInt *)
       rewrite removed_items_int. unfold setitem_int.
       destruct (in_range (zlen l) i) eqn:R.
@@ -510,14 +512,14 @@ Section Tlo.
     destruct (qlen_ok mn mx (zlen l) p q); [exists TypeError|exists TraitError]; auto.
   Qed.
 
-  Theorem tlo_step0_law mn mx l o :
+  Theorem tlo_step0_law mn mx l o : xkey o = false ->
     law_step vld l o (tlo_step0 vld mn mx l o) = [] \/ tlo_step0 vld mn mx l o = raise TraitError l.
   Proof.
-    unfold tlo_step0.
+    intros XK. unfold tlo_step0.
     destruct (announced l o) as [[n|]|e] eqn:AN.
-    - destruct (len_ok mn mx n); [left; apply tl_step_law|right; reflexivity].
-    - left; apply tl_step_law.
-    - left. destruct o; cbn [announced] in AN; try discriminate.
+    - destruct (len_ok mn mx n); [left; apply tl_step_law; exact XK|right; reflexivity].
+    - left; apply tl_step_law; exact XK.
+    - left. destruct o; cbn [announced] in AN; try discriminate; try discriminate XK.
       + (* SetSlice *)
         destruct (getitem_slice_cases l sl) as [[Hs Hg]|[Hs Hg]]; rewrite Hg in AN; cbn [bind] in AN.
         * inversion AN; subst e.
@@ -544,13 +546,13 @@ Section Tlo.
         eapply law_raise; [cbn [builtin]; rewrite HD; reflexivity|left; reflexivity].
   Qed.
 
-  Theorem tlo_step_law mn mx l o :
+  Theorem tlo_step_law mn mx l o : xkey o = false ->
     law_step vld l o (tlo_step vld mn mx l o) = [] \/ tlo_step vld mn mx l o = raise TraitError l.
   Proof.
-    destruct (tlo_step_split mn mx l o) as [(p & q & e & -> & E & [->| ->])|E]; rewrite E.
+    intros XK. destruct (tlo_step_split mn mx l o) as [(p & q & e & -> & E & [->| ->])|E]; rewrite E.
     - left. eapply law_raise; [reflexivity|left; reflexivity].
     - right. reflexivity.
-    - apply tlo_step0_law.
+    - apply tlo_step0_law. exact XK.
   Qed.
 End Tlo.
 
@@ -558,10 +560,14 @@ End Tlo.
 Section Hist.
   Variable vld : Z -> option Z.
 
-  Theorem run_law : forall ops l i, law_hist vld i l (run (tl_step vld) l ops) = [].
+  (* histories in which every integer argument is an int (or converts like one: see [xkey]) *)
+  Definition xfree (ops : list op) : bool := forallb (fun o => negb (xkey o)) ops.
+
+  Theorem run_law : forall ops l i, xfree ops = true -> law_hist vld i l (run (tl_step vld) l ops) = [].
   Proof.
-    induction ops as [|o ops IH]; intros l i; cbn [run law_hist]; [reflexivity|].
-    rewrite tl_step_law, IH. reflexivity.
+    induction ops as [|o ops IH]; intros l i XF; cbn [run law_hist]; [reflexivity|].
+    cbn in XF. apply andb_true_iff in XF. destruct XF as [X1 X2]. apply negb_true_iff in X1.
+    rewrite (tl_step_law vld l o X1), (IH _ _ X2). reflexivity.
   Qed.
 
   (* histories on a TraitListObject: the steps refused for length reasons are
@@ -577,10 +583,12 @@ Section Hist.
         ++ law_hist_tlo (i + 1) (o_after ob) r
     end.
 
-  Theorem run_law_tlo mn mx : forall ops l i, law_hist_tlo i l (run (tlo_step vld mn mx) l ops) = [].
+  Theorem run_law_tlo mn mx : forall ops l i, xfree ops = true ->
+    law_hist_tlo i l (run (tlo_step vld mn mx) l ops) = [].
   Proof.
-    induction ops as [|o ops IH]; intros l i; cbn [run law_hist_tlo]; [reflexivity|].
-    rewrite IH, app_nil_r. destruct (tlo_step_law vld mn mx l o) as [H|H].
+    induction ops as [|o ops IH]; intros l i XF; cbn [run law_hist_tlo]; [reflexivity|].
+    cbn in XF. apply andb_true_iff in XF. destruct XF as [X1 X2]. apply negb_true_iff in X1.
+    rewrite (IH _ _ X2), app_nil_r. destruct (tlo_step_law vld mn mx l o X1) as [H|H].
     - rewrite H. destruct (refused l (tlo_step vld mn mx l o)); reflexivity.
     - rewrite H. unfold refused, raise. cbn. rewrite zlist_eqb_refl. reflexivity.
   Qed.
@@ -630,28 +638,66 @@ End Read.
 (* ---------- the named statements of Props.v ---------- *)
 Section Named.
   Variable vld : Z -> option Z.
-  Let inv l o := law_step_inv vld l o (tl_step vld l o) (tl_step_law vld l o).
+
+  (* F26: an operation whose integer argument is an object with __index__ only raises TypeError (untouched, silent)
+     where the built-in list proceeds: only the comparison with the built-in list (clauses 1, 2, 9) can fail *)
+  Lemma x_step_codes l o c :
+    xkey o = true -> In c (law_step vld l o (tl_step vld l o)) -> c = 1 \/ c = 2 \/ c = 9.
+  Proof.
+    intros X H. destruct o; try discriminate X; unfold law_step, tl_step, raise in H;
+      cbn [o_out o_after o_events o_ret forallb length is_ok is_raise negb is_nil] in H;
+      rewrite zlist_eqb_refl in H; cbn [negb andb orb Nat.leb chk app] in H;
+      repeat match type of H with
+             | context [chk ?k ?b] => lazymatch b with true => fail | false => fail | _ => destruct b eqn:? end
+             end; cbn in H; intuition lia.
+  Qed.
+
+  Theorem law_codes_of_a_step l o c :
+    In c (law_step vld l o (tl_step vld l o)) -> xkey o = true /\ (c = 1 \/ c = 2 \/ c = 9).
+  Proof.
+    intros H. destruct (xkey o) eqn:X.
+    - split; [reflexivity|eapply x_step_codes; eassumption].
+    - rewrite (tl_step_law vld l o X) in H. contradiction.
+  Qed.
+
+  (* everything the law says besides that comparison holds of every operation *)
+  Lemma weak l o :
+    let ob := tl_step vld l o in
+    (is_raise (o_out ob) = true -> o_after ob = l /\ o_events ob = []) /\
+    (length (o_events ob) <= 1)%nat /\
+    (o_after ob <> l -> o_events ob <> []) /\
+    (forall ev, In ev (o_events ob) ->
+       replay l ev = Some (o_after ob) /\ normal_form (zlen l) ev = true /\ removed_selected l ev = true).
+  Proof.
+    destruct (xkey o) eqn:X.
+    - destruct o; try discriminate X; cbn; repeat split; auto; try contradiction; congruence.
+    - destruct (law_step_inv vld l o (tl_step vld l o) (tl_step_law vld l o X)) as (_ & _ & A & B & C & D & _).
+      cbv zeta. auto.
+  Qed.
 
   Lemma step_replay l o ev : In ev (o_events (tl_step vld l o)) -> replay l ev = Some (o_after (tl_step vld l o)).
-  Proof. intros H. destruct (inv l o) as (_ & _ & _ & _ & _ & E & _). apply (E ev H). Qed.
+  Proof. intros H. destruct (weak l o) as (_ & _ & _ & E). apply (E ev H). Qed.
 
-  Lemma step_refines l o :
+  Lemma step_refines l o : xkey o = false ->
     let ob := tl_step vld l o in
     let sr := builtin vld l o in
     outcome_ok (o_out ob) sr = true /\
     o_after ob = (match fst sr with Ok (l', _) => l' | Raise _ => l end) /\
     o_ret ob = (match fst sr with Ok (_, r) => r | Raise _ => None end).
-  Proof. destruct (inv l o) as (A & B & _ & _ & _ & _ & C). cbv zeta. auto. Qed.
+  Proof.
+    intros X. destruct (law_step_inv vld l o (tl_step vld l o) (tl_step_law vld l o X)) as (A & B & _ & _ & _ & _ & C).
+    cbv zeta. auto.
+  Qed.
 
   Lemma step_failing_untouched l o e :
     o_out (tl_step vld l o) = Raise e -> o_after (tl_step vld l o) = l /\ o_events (tl_step vld l o) = [].
-  Proof. intros H. destruct (inv l o) as (_ & _ & F & _). apply F. rewrite H. reflexivity. Qed.
+  Proof. intros H. destruct (weak l o) as (F & _). apply F. rewrite H. reflexivity. Qed.
 
   Lemma step_one_event l o :
     (length (o_events (tl_step vld l o)) <= 1)%nat /\
     (o_after (tl_step vld l o) <> l -> exists ev, o_events (tl_step vld l o) = [ev]).
   Proof.
-    destruct (inv l o) as (_ & _ & _ & L & N & _). split; [exact L|].
+    destruct (weak l o) as (_ & L & N & _). split; [exact L|].
     intros H. specialize (N H). destruct (o_events (tl_step vld l o)) as [|ev [|ev' r]]; [congruence|eauto|cbn in L; lia].
   Qed.
 
@@ -662,7 +708,7 @@ Section Named.
     | S3 s e k => 0 <= s /\ s < e /\ e <= zlen l /\ 2 <= k
     end.
   Proof.
-    intros H. destruct (inv l o) as (_ & _ & _ & _ & _ & E & _). destruct (E _ H) as (_ & NF & _).
+    intros H. destruct (weak l o) as (_ & _ & _ & E). destruct (E _ H) as (_ & NF & _).
     unfold normal_form in NF. cbn [fst] in NF. destruct idx; [lia|].
     repeat (apply andb_true_iff in NF; destruct NF as [NF ?]). lia.
   Qed.
@@ -674,7 +720,7 @@ Section Named.
     | S3 s e k => getitem_slice l (Some s, Some e, Some k) = Ok removed
     end.
   Proof.
-    intros H. destruct (inv l o) as (_ & _ & _ & _ & _ & E & _). destruct (E _ H) as (_ & _ & RS).
+    intros H. destruct (weak l o) as (_ & _ & _ & E). destruct (E _ H) as (_ & _ & RS).
     unfold removed_selected in RS. destruct idx.
     - apply andb_true_iff in RS. destruct RS as [_ RS]. apply zlist_eqb_spec in RS. exact RS.
     - destruct (getitem_slice l (Some a, Some b, Some c)); [|discriminate]. apply zlist_eqb_spec in RS. congruence.
@@ -686,9 +732,47 @@ Section Named.
 End Named.
 
 (* ---------- refinement at the level of histories ---------- *)
-Theorem run_refines_pylist (vld : Z -> option Z) : forall ops l,
+Theorem run_refines_pylist (vld : Z -> option Z) : forall ops l, xfree ops = true ->
   map (fun p => o_after (snd p)) (run (tl_step vld) l ops) = pylist_run vld l ops.
 Proof.
-  induction ops as [|o ops IH]; intros l; cbn [run pylist_run map]; [reflexivity|].
-  destruct (step_refines vld l o) as (_ & HA & _). cbv zeta in HA. cbn [snd]. rewrite HA, IH. reflexivity.
+  induction ops as [|o ops IH]; intros l XF; cbn [run pylist_run map]; [reflexivity|].
+  cbn in XF. apply andb_true_iff in XF. destruct XF as [X1 X2]. apply negb_true_iff in X1.
+  destruct (step_refines vld l o X1) as (_ & HA & _). cbv zeta in HA. cbn [snd]. rewrite HA, (IH _ X2). reflexivity.
 Qed.
+
+(* F26 witness: inserting at an index given as an object with __index__ *)
+Lemma index_object_witness :
+  law_step (vld_of VAll) [1] (InsertX 0 5) (tl_step (vld_of VAll) [1] (InsertX 0 5)) = [1; 2]
+  /\ law_step (vld_of VAll) [1; 2] (PopX 0) (tl_step (vld_of VAll) [1; 2] (PopX 0)) = [1; 2; 9]
+  /\ law_step (vld_of VAll) [1] (ImulX 2) (tl_step (vld_of VAll) [1] (ImulX 2)) = [1; 2].
+Proof. vm_compute. repeat split; reflexivity. Qed.
+
+(* ---------- copies ---------- *)
+Lemma vld_all_fix (vld : Z -> option Z) l :
+  Forall (fun y => vld y = Some y) l -> vld_all vld l = Some l.
+Proof.
+  induction 1 as [|y l Hy _ IH]; cbn; [reflexivity|]. rewrite Hy, IH. reflexivity.
+Qed.
+
+(* for a validator that is idempotent on its range, a list of validated items is copied unchanged, by all three means *)
+Lemma vpart_idem a : vpart (vpart a) = vpart a.
+Proof.
+  unfold vpart. destruct (1000 <=? a) eqn:E; [|rewrite E; reflexivity].
+  pose proof (Z.mod_pos_bound a 1000 ltac:(lia)). replace (1000 <=? a mod 1000) with false by lia. reflexivity.
+Qed.
+
+Theorem tl_copy_keeps_contents (vld : Z -> option Z) k l :
+  (forall x y, vld x = Some y -> vld y = Some y) -> Forall (fun y => exists x, vld x = Some y) l ->
+  exists l', tl_copy vld k l = Ok l' /\ map vpart l' = map vpart l /\ (k <> CopyPickle -> l' = l).
+Proof.
+  intros Hid F. destruct k; cbn.
+  1,2: exists l; rewrite vld_all_fix; [repeat split; reflexivity|];
+       (eapply Forall_impl; [|exact F]; cbn; intros y [x Hx]; eapply Hid; exact Hx).
+  exists (map vpart l). split; [reflexivity|]. split; [|congruence].
+  rewrite map_map. apply map_ext. apply vpart_idem.
+Qed.
+
+(* whatever the validator, the copy holds validated items only and the history on it obeys the list law *)
+Theorem law_on_a_copy (vld : Z -> option Z) k l l' :
+  tl_copy vld k l = Ok l' -> forall ops i, xfree ops = true -> law_hist vld i l' (run (tl_step vld) l' ops) = [].
+Proof. intros _ ops i. apply run_law. Qed.
